@@ -216,7 +216,7 @@ def gen_cases(ctx):
             for stagger in (0, 300, 700):
                 cases.append({"ver": ver, "rot": ver, "reqs": m, "stagger": stagger,
                               "unsolicited": [(10, 0x9999, 3, True), (650, 0x1111, 200, False)]})
-        for _ in range(4 if ctx.quick else 60):
+        for _ in range(4 if ctx.quick else 600):
             n = rng.randint(2, 4)
             reqs = []
             for i in range(n):
